@@ -18,4 +18,9 @@ Definition run (comp : Z) (inp : list Z) : list Z :=
   else if comp =? 21 then run_history inp
   else if comp =? 30 then run_syx_write inp
   else if comp =? 31 then run_syx_read inp
+  else if comp =? 40 then run_save inp
+  else if comp =? 41 then run_load inp
+  else if comp =? 42 then run_meta_bytes inp
+  else if comp =? 43 then run_meta_from_bytes inp
+  else if comp =? 44 then run_varint inp
   else [-3].
